@@ -43,7 +43,7 @@ EXPLANATION = (
     'reported" direction; not the "never refuses a valid spec" direction nor the lexer\'s '
     'indentation arithmetic.'
     " R7 (imported from C02-R5): the legality checks iterate all_fields; Struct/Union.all_fields must include every ancestor's fields, otherwise a legal reference to an inherited tag or field is refused."
-    ' RC (call-condition drift, stonelint.conddrift.run_calls): for every call of a repository or imported-library function in the functions the property is anchored in, the path conditions of its occurrences are compared with reference/conditions.json by truth table; an assignment under which the function used to make the call and now completes without it is a violation (tests on memo tables, emptiness of the iterated collection and earlier refusals excepted; re-spelled conditions are not claimed).'
+    ' RC (call-condition drift, stonelint.effects.run_calls): for every call of a repository or imported-library function in the functions the property is anchored in, the path conditions of its occurrences are compared with reference/effects.json by truth table; an assignment under which the function used to make the call and now completes without it is a violation (tests on memo tables, emptiness of the iterated collection and earlier refusals excepted; re-spelled conditions are not claimed).'
     ' MK (memo-key rule, stonelint.memo): a memo table or done-set the reference tree does not have must be keyed by every access path the skipped code reads, injectively and type-aware.'
     ' GR (stonelint.grammar): the spec grammar (BNF in the p_* docstrings) and the lexer tables (token regexes, KEYWORDS/RESERVED, t_ignore, states) are extracted with ast: every grammar symbol is defined, reachable and productive; every p[k] of an action exists in every alternative its path admits; against reference/grammar.json the production set is unchanged up to nonterminal names or no token string is found on which the LALR tables of the two grammars disagree; the lexer tables give the same first token on every probe text. A report carries the witness sentence / text; a change without witness is not claimed.'
 )
@@ -522,19 +522,20 @@ def run(pm, ctx):
     parser_state(pm, ctx, 'C01-R8')
     ctx.import_rules(pm, 'C02', {'C02-R5'}, 'C01-R7',
                      'field listings that legality checks iterate are complete (shared with C02-R5)')
-    from .. import conddrift
-    conddrift.run(pm, ctx, 'C01-R9', 'frontend',
-                  'each spec error is reported under the condition confirmed on the reference tree '
-                  '(canonical path conditions; relation/polarity changes and pure additions or '
-                  'removals of a conjunct are violations, re-spellings are not claimed)',
-                  'reported')
+    from .. import effects
+    effects.run_refusals(pm, ctx, 'C01-R9', ('stone.frontend', 'stone.ir'),
+                         ('InvalidSpec', 'ParameterError', 'ValueError'),
+                         'each spec error is reported under the condition confirmed on the '
+                         'reference tree (path formulas compared by truth table over the leaf '
+                         'tests; re-spelled tests are not claimed)', 'reported',
+                         raisers=('raise_mismatch_error',))
 
-    from ..conddrift import run_decisions
+    from ..effects import run_decisions
     from ..ownership import OWN
     run_decisions(pm, ctx, 'C01-RD', OWN['C01'])
     from .. import exprdrift
     exprdrift.run(pm, ctx, 'C01-RE', OWN['C01'])
-    from ..conddrift import run_calls
+    from ..effects import run_calls
     run_calls(pm, ctx, 'C01-RC', OWN['C01'])
     from .. import memo
     memo.run(pm, ctx, 'C01-MK', OWN['C01'])
